@@ -27,6 +27,33 @@ def cfg():
     return c
 
 
+def cfg_alike():
+    """Names that look alike to pattern machinery: `_` and `%` (SQL LIKE wildcards), letter case, characters that sort below `/`."""
+    from .. import msgs, templates
+
+    def setup(w, s):
+        for n in ("a_b", "axb", "axb/k", "w", "w/x"):
+            templates.must_ok(s, f'CREATE "{n}"')
+        templates.append(s, "a_b", "u1", "", n=1)
+        templates.append(s, "axb/k", "k1", "", n=2)
+        templates.append(s, "INBOX", "m1", "", n=3)
+
+    tmpl = templates.build("c17-alike", setup)
+    init = {"INBOX": [(1, "m1", set(), msgs.idate_epoch(3))], "a_b": [(1, "u1", set(), msgs.idate_epoch(1))], "axb": [], "axb/k": [(1, "k1", set(), msgs.idate_epoch(2))],
+            "w": [], "w/x": []}
+    return {"prop": PROP, "name": "c17-alike", "template": tmpl, "init": init, "mode": "new", "driver": "h", "loopopts": {}, "snapshot_refused": True,
+            "names": ["a_b", "axb", "axb/k", "w", "w/x", "w-old", "w 2", "Axb", "AXB/k", "z", "z/k", "INBOX"]}
+
+
+def alphabet_alike(tier):
+    A = "A"
+    ev = [{"s": A, "op": "rename", "m": a, "to": b} for a, b in [("a_b", "z"), ("axb", "z"), ("w", "z"), ("a_b", "a%b"), ("w/x", "w-old"), ("axb", "Axb")]]
+    ev += [{"s": A, "op": "create", "m": n} for n in ("w-old", "w 2", "Axb", "AXB/k", "a%b")]
+    ev += [{"s": A, "op": "delete", "m": n} for n in ("a_b", "axb", "w/x", "w-old", "axb/k")]
+    ev += [{"s": A, "op": "subscribe", "m": "axb/k"}, {"s": A, "op": "subscribe", "m": "w"}, {"s": "env", "op": "restart"}]
+    return ev
+
+
 def alphabet(tier):
     A = "A"
     ev = []
@@ -61,7 +88,9 @@ def run(tier, seed, jobs):
     return run_h(PROP, RULES, [{"cfg_ref": ("vf.props.c17", "cfg", []), "alphabet": alphabet(tier), "depth": 3,
                                 "label": "INBOX(1), a(1), a/b"},
                                {"cfg_ref": ("vf.props.c17", "cfg", []), "alphabet": core, "depth": 4 if tier == "quick" else 5,
-                                "label": "core alphabet (delete/create/rename/subscribe of a and a/b), deep"}],
+                                "label": "core alphabet (delete/create/rename/subscribe of a and a/b), deep"},
+                               {"cfg_ref": ("vf.props.c17", "cfg_alike", []), "alphabet": alphabet_alike(tier), "depth": 2 if tier == "quick" else 3,
+                                "label": "look-alike names: a_b / axb / axb/k (LIKE wildcards), w / w/x / w-old (sorting below '/'), letter case"}],
                  ("C17", "C05"), jobs, seed,
                  ["names from a fixed alphabet of 10 (nesting depth 3, space, +, [ ], inbox/s, Drafts); 14 (reference, pattern) pairs for LIST and LSUB after every history",
                   "asimap's documented rule 'a deleted mailbox that is subscribed or has inferiors is kept as \\Noselect' is part of the model; attributes other than "
